@@ -4,6 +4,7 @@ from __future__ import annotations
 import numpy as np
 
 from .. import common as C
+from .. import hard
 from .. import impl
 from .. import solver
 from .. import robust
@@ -16,7 +17,7 @@ PARTIAL = [
     "any time-dependent L with continuous trace (det_solution_timedep); the rest is validated numerically",
 ]
 ASSUMPTIONS = ["reference solution: classical RK4 with 4000 substeps in float64 (independent of SciPy)"]
-JIT_TWIN = ('update',)   # groups of harness/jittwin.py: the numba-compiled code is run on the same battery and compared
+JIT_TWIN = ('update', 'large_update')   # groups of harness/jittwin.py: the numba-compiled code is run on the same battery and compared
 TRUSTED = ["harness/solver.py scenario driver, RK4 reference integrator, LSODA recorder"]
 EXTRA_LEAN_MODULES = ("Properties.C06Analytic",)
 
@@ -43,6 +44,9 @@ def run(ctx, res):
         if rel > _tol(1, strain):
             res.violation(f"F_solution:long_update:{name}", f"one update call over [0, {span}] ({len(recl.updates[0]['raw'])} solver steps): "
                           f"F relative error {rel:.3e} > {_tol(1, strain):.3e}", solver.scenario_json(scl))
+    # far time origins, SI units, reversed intervals, long and uneven partitions, L(t) equal at the sampled times (harness/hard.py)
+    hard.run(res, np.random.default_rng(ctx["seed"] + 1606), ctx, "C06", want=("count", "F"), regimes=solver.ACCEPTED_REGIMES,
+             per_family=(2 if not ctx["thorough"] else 8))
     M = impl._minerals
     core = impl._core
     n_sc = 21 if not ctx["thorough"] else 126
